@@ -12,7 +12,8 @@
    None of the statements below bounds the schema, the byte string or the subset of deleted fields. *)
 From BP Require Import Base.Prelude Model.Types Model.Varint Model.Object Model.Eq Model.Encode Model.Decode.
 From BP Require Import Model.WellFormed Model.C08Step.
-From BP Require Import Proofs.C08FrameP Proofs.C08StepP Proofs.C08UnknownP Proofs.C08CommuteP Proofs.C08EvolutionP.
+From BP Require Import Spec.Varint Spec.C08Wire.
+From BP Require Import Proofs.C08FrameP Proofs.C08StepP Proofs.C08UnknownP Proofs.C08CommuteP Proofs.C08EvolutionP Proofs.C08WireP.
 
 (* Message.parse is a left-to-right fold of the loop body over the records of the input, and succeeds
    exactly when the input is a sequence of complete records each of which the loop body accepts *)
@@ -30,6 +31,29 @@ Print Assumptions C08_records_partition.
 Theorem C08_records_deterministic : forall bs ps, records bs ps -> forall ps', records bs ps' -> ps = ps'.
 Proof. exact records_det. Qed.
 Print Assumptions C08_records_deterministic.
+
+(* [records] against the wire-format specification (Spec/C08Wire.v: wire_records, written with the varint
+   representations of Spec/Varint.v — padded ones included — and without any function of the decoder model):
+   every byte string the specification calls a concatenation of complete records is one for [records], with the
+   same field numbers, wire types and byte extents *)
+Theorem C08_spec_records : forall bs rs,
+  wire_records bs rs -> exists ps, records bs ps /\ map triple ps = rs.
+Proof. exact wire_records_sound. Qed.
+Print Assumptions C08_spec_records.
+
+(* C08_raw_preserved and C08_known_undisturbed stated over the specification-level grammar alone *)
+Theorem C08_raw_preserved_spec : forall sc c bs rs m,
+  wire_records bs rs -> parse sc c bs = Ok m -> ounk m = spec_unknown_raw (get_class sc c) rs.
+Proof. exact raw_preserved_spec. Qed.
+Print Assumptions C08_raw_preserved_spec.
+
+Theorem C08_known_undisturbed_spec : forall sc c bs rs,
+  wire_records bs rs ->
+  forall m, parse sc c bs = Ok m <->
+            exists m', parse sc c (spec_known_raw (get_class sc c) rs) = Ok m' /\
+                       m = set_unk m' (spec_unknown_raw (get_class sc c) rs).
+Proof. exact known_undisturbed_spec. Qed.
+Print Assumptions C08_known_undisturbed_spec.
 
 (* after parsing, _unknown_fields is exactly the concatenation, in arrival order, of the raw bytes of the
    records the class does not know — any wire type, any position *)
@@ -216,3 +240,14 @@ Example C08_split_oneof_refuted :
   parse ex_new 11 ex_conflict = Ok ex_c_direct /\ parse ex_new 11 ex_c_b2 = Ok ex_c_evolved /\
   which_one_of ex_c_direct 0 = Some 5%nat /\ which_one_of ex_c_evolved 0 = Some 4%nat.
 Proof. repeat split; vm_compute; reflexivity. Qed.
+
+Example C08_spec_nonvacuous :
+  wire_records ([x98; x86; x00; x05] ++ ([xa3; x01] ++ ([x0d] ++ [x01; x02; x03; x04]) ++ [xa4; x01]) ++ [])
+               [(99, 0, [x98; x86; x00; x05]); (20, 3, [xa3; x01] ++ ([x0d] ++ [x01; x02; x03; x04]) ++ [xa4; x01])].
+Proof.
+  apply (WRS_cons ([x98; x86; x00] ++ [x05]) 99 0). { apply (WR_varint _ _ 99 5); [lia | | ]; repeat split; cbn; lia. }
+  apply WRS_cons; [|constructor].
+  apply (WR_group [xa3; x01] ([x0d] ++ [x01; x02; x03; x04]) [xa4; x01] 20); [lia | repeat split; cbn; lia | | repeat split; cbn; lia].
+  rewrite <- (app_nil_r ([x0d] ++ [x01; x02; x03; x04])).
+  apply (WS_cons _ 1 5); [|constructor]. apply (WR_fixed32 [x0d] _ 1); [lia | repeat split; cbn; lia | reflexivity].
+Qed.
